@@ -68,7 +68,12 @@ def regen():
                     f.write(text)
             status[name] = {"ok": True, "detail": "regenerated" if old != text else "unchanged",
                             "sha": hashlib.sha256(text.encode()).hexdigest()[:16]}
+    global LAST_GEN
+    LAST_GEN = status
     return status
+
+
+LAST_GEN = {}
 
 
 # ------------------------------------------------------------------ build
@@ -121,6 +126,18 @@ def build(prop_file, timeout=1500):
         _HELD = open(LOCK, "w")
         fcntl.flock(_HELD, fcntl.LOCK_EX)
     try:
+        # a unit whose translator refused keeps its previous Gen file (so that cases can still be evaluated
+        # against it), but every property whose proofs depend on that unit is NOT shown to hold on this tree
+        refused = [u for u, st in LAST_GEN.items() if not st.get("ok") and f"Gen/{u}.v" in deps]
+        if refused:
+            u = refused[0]
+            res["failed_file"] = f"Gen/{u}.v"
+            res["log_tail"] = (f"the translator of {', '.join(refused)} did not accept the current source, so the "
+                               f"definitions the proofs are about could not be regenerated: {LAST_GEN[u]['detail']}")
+            res["wall_s"] = time.time() - t0
+            if _HELD is not None:
+                pass
+            return res
         return _build_locked(prop_file, timeout, deps, res, t0)
     finally:
         fcntl.flock(_HELD, fcntl.LOCK_UN)
